@@ -454,8 +454,10 @@ def real_bad_dataset(b, ds, locus_index):
     dst = b.path(".bam")
     p0 = snv[0]
     with pysam.FastaFile(ds["fasta"]) as fa:
-        rl = 20
-        st = max(0, p0 - 5)
+        # the extra alignment lies entirely inside the failing locus: if it reached into a neighbouring locus it would change
+        # that locus' read counts relative to the canonical run (false alarm seen at soak seed 336)
+        rl = min(20, e - a)
+        st = min(max(a, p0 - 5), e - rl)
         seq = fa.fetch(c, st, st + rl)
     wrong = [x for x in "ACGT" if x != seq[p0 - st]][0]
     fake_ref = seq[: p0 - st] + wrong + seq[p0 - st + 1:]
